@@ -18,6 +18,20 @@ type run struct {
 	budget time.Duration
 }
 
+func confDepth(tier string) int {
+	if tier == "thorough" {
+		return 4
+	}
+	return 3
+}
+
+func confMax(tier string) int {
+	if tier == "thorough" {
+		return 2500
+	}
+	return 400
+}
+
 func minutes(f float64) time.Duration { return time.Duration(f * float64(time.Minute)) }
 
 // membership roots (non-initial states): the volume is started on node 0, further replicas are added and promoted.
@@ -220,6 +234,13 @@ func check(prop string) int {
 	var last *kernel.BFS
 	for _, r := range runs {
 		b := &kernel.BFS{Property: prop, Engine: "E-B/" + r.name, Cfg: r.cfg, MaxDepth: r.depth, Budget: r.budget, Workers: 16, WorkerArgs: []string{"worker"}, WorkerEnv: []string{"GOMAXPROCS=2"}}
+		if !r.cfg.Real && os.Getenv("VERIF_NO_CONFORMANCE") == "" {
+			rc := r.cfg
+			rc.Real = true
+			b.ConfCfg = rc
+			b.ConfMaxDepth = confDepth(tier)
+			b.ConfMax = confMax(tier)
+		}
 		res := b.Run()
 		last = b
 		if res.HarnessErr != "" {
@@ -230,6 +251,7 @@ func check(prop string) int {
 		total.Transitions += res.Transitions
 		total.DistinctObs += res.DistinctObs
 		total.DeterminismOK += res.DeterminismOK
+		total.ConfReplayed += res.ConfReplayed
 		total.Violations = append(total.Violations, res.Violations...)
 		total.Known = append(total.Known, res.Known...)
 		total.Unstable = append(total.Unstable, res.Unstable...)
